@@ -7,7 +7,7 @@
 namespace gil = boost::gil;
 using c13::SeedView; using c13::Opts; using ioc::Flat; using ioc::Emit;
 
-struct TgaFmt
+struct TgaFmt : c13::DefaultDevices
 {
     using tag = gil::targa_tag;
     static const char* name() { return "targa"; }
@@ -28,7 +28,7 @@ struct TgaFmt
     }
 
     // scanline rows: 24 -> bgr8, 32 -> bgra8
-    template <class Reader> static int scan_row(Reader& r, gil::byte_t* p, std::vector<double>& out)
+    template <class Img, class Reader> static int scan_row(Reader& r, gil::byte_t* p, std::vector<double>& out)
     {
         long w = r._info._width;
         if (r._info._bits_per_pixel == 24) { auto v = gil::interleaved_view(w, 1, reinterpret_cast<gil::bgr8_pixel_t const*>(p), std::ptrdiff_t(r._scanline_length)); for (long x = 0; x < w; ++x) ioc::flat_px(v(x, 0), out); return 3; }
@@ -36,7 +36,7 @@ struct TgaFmt
     }
 
     template <class Img> static void view_exact(Emit& e, ioc::Source const& src, int d, Flat const& full)
-    { c13::view_exact_interleaved<Img, tag>(e, src, d, full); }
+    { c13::view_exact_interleaved<TgaFmt, Img>(e, src, d, full); }
 };
 
 static void run_one(vh::Ctx& ctx, SeedView const& sv, bool rgba, Opts const& o)
